@@ -545,6 +545,8 @@ class Oracle:
     def step(self, op):
         t = op.split()
         k = t[0]
+        if k in ('mod', 'link', 'unlink', 'read') and int(t[1]) in self.lost:
+            return 'err:NoState'        # (C12 mode only) the object has no state any more
         if k in ('mod', 'link', 'unlink'):
             i = int(t[1])
             if not self.open and i in self.member:
@@ -782,3 +784,256 @@ def judge(case, real, pid):
         except Verdict as v:
             return (idx, v.signature, v.what)
     return None
+
+
+# =====================================================================================================
+# generator, non-triviality, shrinking, main loop (shared by c11.py / c12.py)
+# =====================================================================================================
+RM_FAILS = ['rm before begin', 'rm after begin', 'rm before commit', 'rm after commit',
+            'rm before vote', 'rm after vote', 'rm before finish']
+
+
+def gen_case(rng, pid, size, kind):
+    n = rng.choice([4, 5, 5, 6, 6, 7])
+    ops = []
+    closed = False
+    nsp = 0
+    for _ in range(size):
+        r = rng.random()
+        i, j = rng.randrange(n), rng.randrange(n)
+        if closed:
+            ops.append(rng.choice(['open', 'open', 'open', 'read %d' % i, 'add %d' % i, 'commit', 'abort',
+                                   'close', 'mod %d %d' % (i, rng.randrange(10))]))
+            if ops[-1] == 'open':
+                closed = False
+            continue
+        if pid == 'C11':
+            if r < 0.20:
+                ops.append('mod %d %d' % (i, rng.randrange(10)))
+            elif r < 0.38:
+                ops.append('link %d %d' % (i, j))
+            elif r < 0.43:
+                ops.append('unlink %d %d' % (i, j))
+            elif r < 0.50:
+                ops.append('add %d' % i)
+            elif r < 0.60:
+                ops.append('read %d' % i)
+            elif r < 0.68:
+                ops.append('commit')
+            elif r < 0.79:
+                c = rng.random()
+                if c < 0.6:
+                    ops.append('commitf ' + rng.choice(RM_FAILS))
+                elif c < 0.9:
+                    ops.append('commitf store %d' % rng.choice([0, 0, 1, 1, 2, 3]))
+                else:
+                    ops.append('commitf vote')
+            elif r < 0.85:
+                ops.append('abort')
+            elif r < 0.89:
+                ops.append('close')
+                if rng.random() < 0.8:
+                    closed = True        # (a refused close leaves it open: the next ops find out)
+            elif r < 0.96:
+                ops.append('ext %d %d' % (i, 10 + rng.randrange(10)))
+            else:
+                ops.append('peek %d' % i)
+        else:
+            if r < 0.22:
+                ops.append('mod %d %d' % (i, rng.randrange(10)))
+            elif r < 0.38:
+                ops.append('link %d %d' % (i, j))
+            elif r < 0.43:
+                ops.append('unlink %d %d' % (i, j))
+            elif r < 0.50:
+                ops.append('add %d' % i)
+            elif r < 0.58:
+                ops.append('read %d' % i)
+            elif r < 0.73:
+                ops.append('sp')
+                nsp += 1
+            elif r < 0.88:
+                if nsp and rng.random() < 0.9:
+                    ops.append('rb %d' % rng.randrange(nsp))
+                else:
+                    ops.append('rb %d' % rng.randrange(nsp + 2))
+            elif r < 0.93:
+                ops.append('commit')
+                nsp = 0
+            elif r < 0.97:
+                ops.append('abort')
+                nsp = 0
+            else:
+                ops.append('peek %d' % i)
+    if closed:
+        ops.append('open')
+    ops.append(rng.choice(['commit', 'abort', 'commit']))
+    ops += ['read %d' % i for i in range(n)] + ['peek %d' % i for i in range(n)]
+    return dict(kind=kind, n=n, ops=ops)
+
+
+def nontrivial(case, real, pid):
+    """the rule of DESIGN 4.21, measured on the executed trace (through the oracle's bookkeeping)"""
+    o = Oracle(case['n'], pid)
+    implicit = failed = False
+    rbs, older = 0, False
+    for idx, op in enumerate(case['ops'], 1):
+        res = real[idx].split(' | ')[0]
+        k = op.split()[0]
+        was_joined = o.joined
+        nsp = len(o.sps)
+        try:
+            o.lastkind = None
+            o.step(op)
+        except Tainted:
+            break
+        if k in ('commit', 'commitf', 'sp') and was_joined and getattr(o, 'lastnew', None):
+            implicit = True
+        if k == 'sp' and was_joined:
+            pass
+        if res.startswith('fail:') or (k == 'abort' and was_joined):
+            failed = True
+        if k == 'rb' and res == 'ok':
+            rbs += 1
+            if int(op.split()[1]) < nsp - 1:
+                older = True
+        o.lastnew = None
+    if pid == 'C11':
+        return implicit and failed
+    return rbs >= 2 and older
+
+
+def load_corpus(pid):
+    import json
+    d = os.path.join(os.path.dirname(os.path.dirname(os.path.abspath(__file__))), 'corpus', pid)
+    out = []
+    if os.path.isdir(d):
+        for f in sorted(os.listdir(d)):
+            if f.endswith('.json'):
+                with open(os.path.join(d, f)) as fh:
+                    c = json.load(fh)
+                out.append(dict(kind=c['kind'], n=c['n'], ops=c['ops']))
+    return out
+
+
+_counter = [0]
+
+
+def real_of(case, tmpdir, blobs=False):
+    import shutil
+    _counter[0] += 1
+    tag = '%d-%d' % (os.getpid(), _counter[0])
+    try:
+        return run_real(case, tmpdir, tag, blobs)
+    finally:
+        shutil.rmtree(os.path.join(tmpdir, 'fs-' + tag), ignore_errors=True)
+
+
+def _work(args):
+    case, tmpdir, pid = args
+    try:
+        real = real_of(case, tmpdir)
+        return real, judge(case, real, pid), nontrivial(case, real, pid), None
+    except Exception as e:      # harness trouble, not a verdict
+        import traceback
+        return None, None, False, traceback.format_exc()
+
+
+def run_check(pid, argv=None):
+    import json
+    from common import Check, InfraError, run_driver, ddmin
+    ck = Check(pid, argv)
+    ck.extra['modules'] = ['Props.' + pid, 'Drivers.Conn']
+    ck.run_gate(ck.extra['modules'], ['Props.' + pid])
+    ncases = (300 if pid == 'C11' else 300) if not ck.thorough else (10000 if pid == 'C11' else 20000)
+    cases = load_corpus(pid)
+    if ck.replay_path:
+        with open(ck.replay_path) as f:
+            c = json.load(f)['case']
+        cases = [dict(kind=c['kind'], n=c['n'], ops=c['ops'])]
+        ncases = 0
+    kinds = KINDS
+    for m in range(ncases):
+        size = ck.rng.choice([6, 10, 16, 24, 36])
+        if pid == 'C11':
+            for kind in (kinds if not ck.thorough else [kinds[m % 3]]):
+                cases.append(gen_case(ck.rng, pid, size, kind))
+        else:
+            cases.append(gen_case(ck.rng, pid, size, kinds[m % 3]))
+    # model: one driver process for everything (several in the thorough tier)
+    work = [(c, ck.tmp, pid) for c in cases]
+    if ck.thorough and len(cases) > 2000:
+        import multiprocessing as mp
+        from concurrent.futures import ThreadPoolExecutor
+        nchunk = 8
+        chunks = [cases[i::nchunk] for i in range(nchunk)]
+
+        def drive(chunk):
+            lines = []
+            for c in chunk:
+                lines += driver_lines(c)
+            return run_driver('Conn', lines, timeout=900)
+        with ThreadPoolExecutor(nchunk) as ex:
+            futs = [ex.submit(drive, ch) for ch in chunks]
+            with mp.Pool(8) as pool:
+                results = pool.map(_work, work, chunksize=50)
+            outs = [f.result() for f in futs]
+        model_of = {}
+        for ci, ch in enumerate(chunks):
+            pos = 0
+            for k, c in enumerate(ch):
+                ln = len(c['ops']) + 1
+                model_of[ci + k * nchunk] = outs[ci][pos:pos + ln]
+                pos += ln
+        models = [model_of[i] for i in range(len(cases))]
+    else:
+        lines = []
+        for c in cases:
+            lines += driver_lines(c)
+        out = run_driver('Conn', lines) if lines else []
+        models, pos = [], 0
+        for c in cases:
+            ln = len(c['ops']) + 1
+            models.append(out[pos:pos + ln])
+            pos += ln
+        results = [_work(w) for w in work]
+    for case, model, (real, verdict, nontriv, err) in zip(cases, models, results):
+        if err:
+            raise InfraError('runner failed on %r: %s' % (case, err))
+        for op in case['ops']:
+            t = op.split()
+            ck.count('op:' + (t[0] if t[0] != 'commitf' else 'commitf-' + t[1]))
+        ck.count('storage:' + case['kind'])
+        for r in real:
+            h = r.split(' | ')[0].split()[0]
+            if h.startswith('fail:') or h.startswith('err:'):
+                ck.count(h)
+        ck.case(case, nontriv, sample=dict(case=case, real=real[:8]) if nontriv else None)
+        cut = len(real)
+        if verdict is not None and verdict[0] == 'taint':
+            ck.count('tainted-by-C11-finding')
+            cut = verdict[1]
+        elif verdict is not None:
+            idx, sig, what = verdict
+            cut = idx
+            ops = case['ops']
+
+            def fails(sub, sig=sig, case=case):
+                c2 = dict(kind=case['kind'], n=case['n'], ops=sub)
+                v = judge(c2, real_of(c2, ck.tmp), pid)
+                return v is not None and v[0] != 'taint' and v[1] == sig
+            small = ddmin(ops[:idx], fails, max_tests=150)
+            c2 = dict(kind=case['kind'], n=case['n'], ops=small)
+            r2 = real_of(c2, ck.tmp)
+            v2 = judge(c2, r2, pid)
+            if v2 is None or v2[0] == 'taint' or v2[1] != sig:
+                c2, r2, v2 = dict(case, ops=ops[:idx]), real[:idx + 1], verdict
+            ck.violation(v2[1], v2[2], dict(c2, real=r2, at=v2[0]))
+        for k in range(min(cut, len(real))):
+            if real[k] != model[k]:
+                op = (['reset'] + case['ops'])[k]
+                ck.mismatch('model/impl differ at op #%d %r: impl %r model %r' % (k, op, real[k], model[k]),
+                            dict(kind=case['kind'], n=case['n'], ops=case['ops'][:k], real=real[:k + 1],
+                                 model=model[:k + 1]))
+                break
+    return ck
